@@ -199,8 +199,8 @@ pub fn run(ctx: &Ctx) -> PropResult {
     let mut all: Vec<&'static IfaceDesc> = vec![ctx.iface("mini"), ctx.iface("pzoo")];
     all.extend(ctx.random_ifaces());
     let shards = 64usize;
-    let ex_msgs = ctx.scaled(if ctx.thorough { 100 } else { 6 });
-    let rnd_msgs = ctx.scaled(if ctx.thorough { 4_000 } else { 250 });
+    let ex_msgs = ctx.scaled(if ctx.thorough { 300 } else { 20 });
+    let rnd_msgs = ctx.scaled(if ctx.thorough { 15_000 } else { 1_000 });
     let accs = par::run_shards(
         shards * 2,
         ctx.threads,
